@@ -57,4 +57,8 @@ def coords(mesh):
 
 
 def ints(seq):
-    return [int(x) for x in seq]
+    from .runner import MalformedAnswer
+    try:
+        return [int(x) for x in seq]
+    except (TypeError, ValueError) as e:
+        raise MalformedAnswer(f"the library returned {seq!r:.300} where a sequence of integer ids is expected ({e})")
